@@ -417,6 +417,9 @@ func c01race(c *ctx, k int) {
 		})
 		defer common.SetVerifHook(nil)
 		a, b := newPair("late")
+		ps.rg.S[0].conns = append(ps.rg.S[0].conns, a) // known to the rig (and tapped) before anything can be written on it
+		ps.rg.S[1].conns = append(ps.rg.S[1].conns, b)
+		ps.tapAll()
 		done := make(chan struct{})
 		go func() {
 			ps.rg.S[0].sesh.AddConnection(a)
@@ -432,8 +435,6 @@ func c01race(c *ctx, k int) {
 		}
 		close(release)
 		<-done
-		ps.rg.S[0].conns = append(ps.rg.S[0].conns, a)
-		ps.rg.S[1].conns = append(ps.rg.S[1].conns, b)
 		ps.rg.S[1].sesh.AddConnection(b)
 		synctest.Wait()
 		c.o.N(fmt.Sprintf("%s: AddConnection parked inside addConn, %d sends meanwhile, session closed=%v (%s)", tag, sends, ps.rg.S[0].sesh.IsClosed(), ps.rg.S[0].sesh.TerminalMsg()))
